@@ -182,20 +182,28 @@ Qed.
 (* C10 send side *)
 Definition fits (mtu : Z) (f : bytes) : Prop := (zlen f <= mtu)%Z.
 
-(* every frame handed to the transport fits the MTU.  No lower bound on the MTU is needed for this half; the
-   upper bounds are those under which the reserved 3-byte length fields and 2-byte fragment numbers suffice. *)
-Theorem frames_fit_lemma : forall mtu o seq tok inface mark wire,
-  (mtu <= 65535)%Z -> (zlen wire <= 65535)%Z ->
-  Forall (fits mtu) (fst (send_packet mtu o seq tok inface mark wire)).
+(* the cached reservation is sufficient for the options in force *)
+Definition hdr_ok (o : sopts) (hdr : N) : Prop :=
+  o_frag o = true -> 4 + 4 + 18 + (if o_ifi o then 12 else 0) <= hdr.
+
+Lemma hdr_ok_computed o : hdr_ok o (compute_header_overhead o).
+Proof. intros Hfr. unfold compute_header_overhead. rewrite Hfr. apply consts_header_frag. Qed.
+
+(* every frame handed to the transport fits the MTU, for any cached reservation that is sufficient for the options.
+   No lower bound on the MTU is needed for this half; the upper bounds are those under which the reserved 3-byte
+   length fields and 2-byte fragment numbers suffice. *)
+Lemma frames_fit_h : forall mtu hdr o seq tok inface mark wire,
+  hdr_ok o hdr -> (mtu <= 65535)%Z -> (zlen wire <= 65535)%Z ->
+  Forall (fits mtu) (map lp_encode (fst (send_fields_h mtu (Z.of_N hdr) o seq tok inface mark wire))).
 Proof.
-  intros mtu o seq tok inface mark wire Hmtu Hw.
-  unfold send_packet, send_fields.
+  intros mtu hdr o seq tok inface mark wire Hhdr Hmtu Hw.
+  unfold send_fields_h.
   destruct (lp_frame_length (exact_header o tok inface mark) (zlen wire) <=? mtu)%Z eqn:Efit.
   { cbn [fst map]. constructor; [|constructor]. unfold fits. rewrite zlen_single, <- exact_header_eq. lia. }
   destruct (negb (o_frag o)) eqn:Efrag; [constructor|].
-  destruct (effective_mtu mtu o tok mark <=? 0)%Z eqn:Eeff; [constructor|].
+  destruct (effective_mtu_h mtu (Z.of_N hdr) tok mark <=? 0)%Z eqn:Eeff; [constructor|].
   cbn [fst]. apply Forall_map.
-  set (eff := effective_mtu mtu o tok mark) in *.
+  set (eff := effective_mtu_h mtu (Z.of_N hdr) tok mark) in *.
   set (n := ((zlen wire + eff - 1) / eff)%Z).
   pose proof (zlen_nonneg wire) as Hw0.
   destruct (ceil_div_facts (zlen wire) eff ltac:(lia) Hw0) as (Hn0 & Hcover & _ & Hnw). fold n in Hn0, Hcover, Hnw.
@@ -210,8 +218,9 @@ Proof.
   unfold fits. rewrite N.add_0_l, zlen_fragment. cbv zeta.
   (* the budget *)
   assert (Hfr : o_frag o = true) by (destruct (o_frag o); [reflexivity|discriminate]).
-  unfold eff, effective_mtu in *. rewrite Hfr in *.
-  pose proof (consts_header_frag (o_ifi o)) as Hh. pose proof consts_mark as Hm.
+  specialize (Hhdr Hfr).
+  unfold eff, effective_mtu_h in *.
+  pose proof consts_mark as Hm.
   pose proof (token_len_nonneg tok) as Ht.
   pose proof (hdr_inface_bound (if o_ifi o then inface else None)) as Hi.
   assert (Hi' : (hdr_inface (if o_ifi o then inface else None) <= (if o_ifi o then 12 else 0))%Z)
@@ -231,6 +240,55 @@ Proof.
   pose proof (ztl_mono_small inner ltac:(lia)). lia.
 Qed.
 
+Theorem frames_fit_lemma : forall mtu o seq tok inface mark wire,
+  (mtu <= 65535)%Z -> (zlen wire <= 65535)%Z ->
+  Forall (fits mtu) (fst (send_packet mtu o seq tok inface mark wire)).
+Proof.
+  intros mtu o seq tok inface mark wire Hmtu Hw.
+  pose proof (frames_fit_h mtu (compute_header_overhead o) o seq tok inface mark wire (hdr_ok_computed o) Hmtu Hw) as H.
+  unfold send_packet, send_fields. now destruct (send_fields_h mtu (Z.of_N (compute_header_overhead o)) o seq tok inface mark wire).
+Qed.
+
+(* histories: the cached reservation always is the one of the options in force (MakeNDNLPLinkService and SetOptions
+   store the options and THEN recompute it), so every frame of every send of every history fits the MTU of that send *)
+Definition ls_inv (l : lsend) : Prop := ls_hdr l = compute_header_overhead (ls_opts l).
+
+Lemma ls_inv_make o : ls_inv (make_ls o).
+Proof. reflexivity. Qed.
+Lemma ls_inv_set l o : ls_inv (set_options l o).
+Proof. reflexivity. Qed.
+
+Definition send_ok (x : Z * list bytes) : Prop := Forall (fits (fst x)) (snd x).
+Definition ev_ok (e : lsev) : Prop :=
+  match e with EvSend mtu _ _ _ wire => (mtu <= 65535)%Z /\ (zlen wire <= 65535)%Z | _ => True end.
+
+Lemma ls_run_fit : forall evs l acc, ls_inv l -> Forall ev_ok evs -> Forall send_ok acc ->
+  ls_inv (fst (ls_run l evs acc)) /\ Forall send_ok (snd (ls_run l evs acc)).
+Proof.
+  induction evs as [|e evs IH]; intros l acc Hl Hev Hacc.
+  - cbn [ls_run fst snd]. split; [exact Hl|]. now apply Forall_rev.
+  - inversion Hev as [|? ? He Hev']; subst. destruct e as [o|s|mtu tok inface mark wire]; cbn [ls_run].
+    + apply IH; [apply ls_inv_set|exact Hev'|exact Hacc].
+    + apply IH; [exact Hl|exact Hev'|exact Hacc].
+    + destruct He as [Hmtu Hw]. unfold ls_send.
+      pose proof (frames_fit_h mtu (ls_hdr l) (ls_opts l) (ls_seq l) tok inface mark wire) as Hfit.
+      destruct (send_fields_h mtu (Z.of_N (ls_hdr l)) (ls_opts l) (ls_seq l) tok inface mark wire) as [fs s'].
+      apply IH; [exact Hl|exact Hev'|]. constructor; [|exact Hacc].
+      unfold send_ok. cbn [fst snd]. apply Hfit; [|exact Hmtu|exact Hw].
+      rewrite Hl. apply hdr_ok_computed.
+Qed.
+
+Theorem frames_fit_histories_lemma : forall o0 evs, Forall ev_ok evs ->
+  Forall send_ok (snd (ls_run (make_ls o0) evs [])).
+Proof. intros o0 evs H. apply (ls_run_fit evs (make_ls o0) [] (ls_inv_make o0) H). constructor. Qed.
+
+(* what goes wrong when SetOptions recomputes the reservation BEFORE storing the new options (reservation of the old
+   options, fields of the new ones): fragmentation switched on by SetOptions, MTU 1500, 4000-byte packet *)
+Lemma stale_reservation_overflows :
+  let stale := mkLs (mkSo true false) (compute_header_overhead (mkSo false false)) 0 in
+  existsb (fun f => (1500 <? zlen f)%Z) (fst (ls_send 1500 stale [0;0;1;2;3;4] None None (repeat 7 4000))) = true.
+Proof. vm_compute. reflexivity. Qed.
+
 (* a packet whose unfragmented LpPacket fits the MTU is sent as exactly one frame, which carries the whole packet
    with its PIT token and congestion mark; the sequence counter is not used *)
 Theorem fits_one_frame_lemma : forall mtu o seq tok inface mark wire,
@@ -238,7 +296,7 @@ Theorem fits_one_frame_lemma : forall mtu o seq tok inface mark wire,
   send_packet mtu o seq tok inface mark wire =
     ([lp_encode (mkLpf None None None tok (if o_ifi o then inface else None) None None mark (Some wire))], seq).
 Proof.
-  intros mtu o seq tok inface mark wire H. unfold single_frame_fits in H. unfold send_packet, send_fields. now rewrite H.
+  intros mtu o seq tok inface mark wire H. unfold single_frame_fits in H. unfold send_packet, send_fields, send_fields_h. now rewrite H.
 Qed.
 
 (* with fragmentation disabled a packet that does not fit is dropped: no frame at all is emitted (never a truncated one) *)
@@ -246,7 +304,7 @@ Theorem nofrag_oversize_dropped_lemma : forall mtu o seq tok inface mark wire,
   single_frame_fits mtu o tok inface mark wire = false -> o_frag o = false ->
   send_packet mtu o seq tok inface mark wire = ([], seq).
 Proof.
-  intros mtu o seq tok inface mark wire H Hf. unfold single_frame_fits in H. unfold send_packet, send_fields. now rewrite H, Hf.
+  intros mtu o seq tok inface mark wire H Hf. unfold single_frame_fits in H. unfold send_packet, send_fields, send_fields_h. now rewrite H, Hf.
 Qed.
 
 (* single_frame_fits is exactly "the LpPacket carrying the whole packet is no larger than the MTU" *)
